@@ -1,6 +1,7 @@
 import Pun.Model.Hier
 import Pun.Lemmas.PBoxFrechet
 import Pun.Lemmas.Hull
+import Mathlib.Data.List.Forall2
 import Mathlib.Tactic.Linarith
 import Mathlib.Tactic.Ring
 import Mathlib.Algebra.Order.Field.Basic
@@ -603,5 +604,303 @@ theorem div_ofIvl (n : Nat) (dep : Dep) (hd : dep ≠ .unknown) (a b c d : Rat) 
   rw [recip_ofIvl n c d hn hcd h0, ok_bind, numberOp_ofIvl n _ _ _ _ hn, ok_bind]
   simp only [mul_one, min_eq_left hle, max_eq_right hle]
   exact mul_ofIvl n (swapPO dep) (swapPO_ne_unknown dep hd) a b _ _ hn hab hle
+
+/-! ## the constructor on well-formed bounds -/
+
+theorem lexGe_eq_of_le : ∀ (l r : List Rat), List.Forall₂ (· ≤ ·) l r → lexGe l r = true → l = r
+  | [], [], _, _ => rfl
+  | a :: s, b :: t, h, hg => by
+    cases h with
+    | cons hab htl =>
+      simp only [lexGe] at hg
+      have h1 : ¬ a > b := not_lt.mpr hab
+      simp only [h1, if_false] at hg
+      by_cases h2 : a < b
+      · simp [h2] at hg
+      · simp only [h2, if_false] at hg
+        have : a = b := le_antisymm hab (not_lt.mp h2)
+        rw [this, lexGe_eq_of_le s t htl hg]
+
+theorem allGe_eq_of_le : ∀ (l r : List Rat), List.Forall₂ (· ≤ ·) l r → allGe l r = true → l = r
+  | [], [], _, _ => rfl
+  | a :: s, b :: t, h, hg => by
+    cases h with
+    | cons hab htl =>
+      simp only [allGe, List.zip_cons_cons, List.all_cons, Bool.and_eq_true, decide_eq_true_eq] at hg
+      have : a = b := le_antisymm hab hg.1
+      rw [this, allGe_eq_of_le s t htl (by simpa [allGe] using hg.2)]
+
+/-- well-formed bounds: `n` steps, both sorted, `left ≤ right` step by step -/
+structure WF (n : Nat) (p : PB) : Prop where
+  llen : p.left.length = n
+  rlen : p.right.length = n
+  lsorted : p.left.Pairwise (· ≤ ·)
+  rsorted : p.right.Pairwise (· ≤ ·)
+  le : List.Forall₂ (· ≤ ·) p.left p.right
+
+/-- the constructor returns well-formed bounds unchanged (the `left ≥ right` switch, in either
+form, can only fire when the two bounds coincide) -/
+theorem mk_wf (n : Nat) (lists : Bool) (l r : List Rat) (h : WF n ⟨l, r⟩) : mk n lists l r = .ok ⟨l, r⟩ := by
+  have hll : l.length = n := h.llen
+  have hrl : r.length = n := h.rlen
+  have hsw : ∀ (sw : Bool), (sw = true → l = r) →
+      ((if sw then (r, l) else (l, r)) : List Rat × List Rat) = (l, r) := by
+    intro sw hs; cases sw
+    · rfl
+    · rw [hs rfl]; rfl
+  unfold mk
+  have key : ((if (if lists then lexGe l r else (if l.length = r.length then allGe l r else false)) then (r, l) else (l, r)) :
+      List Rat × List Rat) = (l, r) := by
+    apply hsw
+    cases lists
+    · simp only [Bool.false_eq_true, if_false, hll, hrl, if_true]; exact allGe_eq_of_le l r h.le
+    · simp only [if_true]; exact lexGe_eq_of_le l r h.le
+  simp only [key]
+  simp [boundSteps, hll, hrl, isIncreasing_of_pairwise l h.lsorted, isIncreasing_of_pairwise r h.rsorted]
+
+theorem wf_ofIvl (n : Nat) (a b : Rat) (hab : a ≤ b) : WF n (ofIvl n a b) where
+  llen := by simp [ofIvl]
+  rlen := by simp [ofIvl]
+  lsorted := List.pairwise_replicate.mpr (Or.inr (le_refl a))
+  rsorted := List.pairwise_replicate.mpr (Or.inr (le_refl b))
+  le := by
+    simp only [ofIvl]
+    induction n with
+    | zero => exact List.Forall₂.nil
+    | succ k ih => exact List.Forall₂.cons hab ih
+
+theorem forall₂_le_refl : ∀ (q : List Rat), List.Forall₂ (· ≤ ·) q q
+  | [] => List.Forall₂.nil
+  | a :: t => List.Forall₂.cons (le_refl a) (forall₂_le_refl t)
+
+theorem wf_ofDist (q : List Rat) (hs : q.Pairwise (· ≤ ·)) : WF q.length (ofDist q) :=
+  ⟨rfl, rfl, hs, hs, forall₂_le_refl q⟩
+
+
+/-! ## a constant operand combined with sorted bounds: shift / scale -/
+
+theorem sorted_get_le (q : List Rat) (hq : q.Pairwise (· ≤ ·)) (i j : Nat) (hij : i ≤ j) (hj : j < q.length) :
+    q[i]'(by omega) ≤ q[j] := by
+  rcases Nat.lt_or_ge i j with h | h
+  · exact (List.pairwise_iff_getElem.mp hq) i j (by omega) hj h
+  · have : i = j := by omega
+    subst this; exact le_refl _
+
+theorem frechetLeftRaw_constL (op : Rat → Rat → Rat) (a : Rat) (q : List Rat) (hq : q.Pairwise (· ≤ ·))
+    (hm : ∀ x y, x ≤ y → op a x ≤ op a y) :
+    frechetLeftRaw op (List.replicate q.length a) q = q.map (op a) := by
+  apply List.ext_getElem
+  · simp [frechetLeftRaw_length]
+  · intro i h1 h2
+    have hi : i < q.length := by simpa using h2
+    obtain ⟨v, hv, hub, j, hj, hatt⟩ := frechetLeftRaw_spec op (List.replicate q.length a) q (by simp) i (by simpa using hi)
+    rw [List.getElem?_eq_getElem h1] at hv
+    rw [Option.some.inj hv, List.getElem_map]
+    apply le_antisymm
+    · rw [hatt]; simp only [List.getElem_replicate]
+      exact hm _ _ (sorted_get_le q hq (i - j) i (by omega) hi)
+    · have := hub 0 (Nat.zero_le i)
+      simpa using this
+
+theorem frechetLeftRaw_constR (op : Rat → Rat → Rat) (a : Rat) (q : List Rat) (hq : q.Pairwise (· ≤ ·))
+    (hm : ∀ x y, x ≤ y → op x a ≤ op y a) :
+    frechetLeftRaw op q (List.replicate q.length a) = q.map (op · a) := by
+  apply List.ext_getElem
+  · simp [frechetLeftRaw_length]
+  · intro i h1 h2
+    have hi : i < q.length := by simpa using h2
+    obtain ⟨v, hv, hub, j, hj, hatt⟩ := frechetLeftRaw_spec op q (List.replicate q.length a) (by simp) i hi
+    rw [List.getElem?_eq_getElem h1] at hv
+    rw [Option.some.inj hv, List.getElem_map]
+    apply le_antisymm
+    · rw [hatt]; simp only [List.getElem_replicate]
+      exact hm _ _ (sorted_get_le q hq j i hj hi)
+    · have := hub i (le_refl i)
+      simpa using this
+
+theorem frechetRightRaw_constL (op : Rat → Rat → Rat) (b : Rat) (q : List Rat) (hq : q.Pairwise (· ≤ ·))
+    (hm : ∀ x y, x ≤ y → op b x ≤ op b y) :
+    frechetRightRaw op (List.replicate q.length b) q = q.map (op b) := by
+  apply List.ext_getElem
+  · simp [frechetRightRaw_length]
+  · intro i h1 h2
+    have hi : i < q.length := by simpa using h2
+    obtain ⟨v, hv, hlb, t, ht, hatt⟩ := frechetRightRaw_spec op (List.replicate q.length b) q q.length (by simp) rfl i hi
+    rw [List.getElem?_eq_getElem h1] at hv
+    rw [Option.some.inj hv, List.getElem_map]
+    apply le_antisymm
+    · have := hlb (q.length - 1 - i) (by omega)
+      simp only [List.getElem_replicate] at this
+      have e : q.length - 1 - (q.length - 1 - i) = i := by omega
+      simpa [e] using this
+    · rw [hatt]; simp only [List.getElem_replicate]
+      exact hm _ _ (sorted_get_le q hq i (q.length - 1 - t) (by omega) (by omega))
+
+theorem frechetRightRaw_constR (op : Rat → Rat → Rat) (b : Rat) (q : List Rat) (hq : q.Pairwise (· ≤ ·))
+    (hm : ∀ x y, x ≤ y → op x b ≤ op y b) :
+    frechetRightRaw op q (List.replicate q.length b) = q.map (op · b) := by
+  apply List.ext_getElem
+  · simp [frechetRightRaw_length]
+  · intro i h1 h2
+    have hi : i < q.length := by simpa using h2
+    obtain ⟨v, hv, hlb, t, ht, hatt⟩ := frechetRightRaw_spec op q (List.replicate q.length b) q.length rfl (by simp) i hi
+    rw [List.getElem?_eq_getElem h1] at hv
+    rw [Option.some.inj hv, List.getElem_map]
+    apply le_antisymm
+    · have := hlb 0 (by omega)
+      simpa using this
+    · rw [hatt]; simp only [List.getElem_replicate]
+      exact hm _ _ (sorted_get_le q hq i (i + t) (by omega) (by omega))
+
+
+theorem sortR_perm (l : List Rat) : (sortR l).Perm l := List.mergeSort_perm l _
+
+theorem sortR_sorted (l : List Rat) : (sortR l).Pairwise (· ≤ ·) := by
+  have := List.pairwise_mergeSort (le := fun a b : Rat => decide (a ≤ b))
+    (fun a b c h1 h2 => by simp at h1 h2 ⊢; exact le_trans h1 h2)
+    (fun a b => by simp; exact le_total a b) l
+  exact this.imp (fun h => by simpa using h)
+
+/-- sorting any rearrangement of a sorted list gives that list -/
+theorem sortR_eq_of_perm (X L : List Rat) (hp : X.Perm L) (hs : L.Pairwise (· ≤ ·)) : sortR X = L :=
+  List.Perm.eq_of_pairwise (fun a b _ _ h1 h2 => le_antisymm h1 h2) (sortR_sorted X) hs ((sortR_perm X).trans hp)
+
+theorem focal_add_exact (a b c d : Rat) (hab : a ≤ b) (hcd : c ≤ d) :
+    min4 (a+c) (a+d) (b+c) (b+d) = a + c ∧ max4 (a+c) (a+d) (b+c) (b+d) = b + d := by
+  unfold min4 max4
+  constructor
+  · rw [min_eq_left (by linarith : a + c ≤ a + d), min_eq_left (by linarith : a + c ≤ b + c),
+      min_eq_left (by linarith : a + c ≤ b + d)]
+  · exact max_eq_right (max_le (max_le (by linarith) (by linarith)) (by linarith))
+
+/-- focal sums: with `left ≤ right` step by step the four-corner rule is `left+left`, `right+right` -/
+theorem cornerPair_add (xl xr yl yr : List Rat) (hx : List.Forall₂ (· ≤ ·) xl xr)
+    (hy : List.Forall₂ (· ≤ ·) yl yr) :
+    cornerPair (· + ·) xl xr yl yr = (List.zipWith (· + ·) xl yl, List.zipWith (· + ·) xr yr) := by
+  induction hx generalizing yl yr with
+  | nil => simp [cornerPair, zip4]
+  | @cons a b ta tb hab _ ih =>
+    cases hy with
+    | nil => simp [cornerPair, zip4]
+    | @cons c d tc td hcd htl =>
+      have := ih tc td htl
+      simp only [cornerPair, List.zipWith_cons_cons, zip4, Prod.mk.injEq] at this ⊢
+      obtain ⟨e1, e2⟩ := focal_add_exact a b c d hab hcd
+      rw [e1, e2, this.1, this.2]
+      exact ⟨rfl, rfl⟩
+
+theorem zipWith_replicate_left (f : Rat → Rat → Rat) (a : Rat) : ∀ (q : List Rat),
+    List.zipWith f (List.replicate q.length a) q = q.map (f a)
+  | [] => rfl
+  | x :: t => by simp [List.replicate_succ, zipWith_replicate_left f a t]
+
+theorem zipWith_replicate_right (f : Rat → Rat → Rat) (a : Rat) : ∀ (q : List Rat),
+    List.zipWith f q (List.replicate q.length a) = q.map (f · a)
+  | [] => rfl
+  | x :: t => by simp [List.replicate_succ, zipWith_replicate_right f a t]
+
+theorem forall₂_replicate (n : Nat) (a b : Rat) (hab : a ≤ b) :
+    List.Forall₂ (· ≤ ·) (List.replicate n a) (List.replicate n b) := by
+  induction n with
+  | zero => exact List.Forall₂.nil
+  | succ k ih => exact List.Forall₂.cons hab ih
+
+theorem forall₂_map_add (a b : Rat) (hab : a ≤ b) : ∀ (l r : List Rat), List.Forall₂ (· ≤ ·) l r →
+    List.Forall₂ (· ≤ ·) (l.map (a + ·)) (r.map (b + ·))
+  | _, _, .nil => List.Forall₂.nil
+  | _, _, .cons h t => List.Forall₂.cons (by show a + _ ≤ b + _; linarith) (forall₂_map_add a b hab _ _ t)
+
+theorem pairwise_map_add (a : Rat) (l : List Rat) (h : l.Pairwise (· ≤ ·)) : (l.map (a + ·)).Pairwise (· ≤ ·) :=
+  List.Pairwise.map _ (fun x y hxy => by show a + x ≤ a + y; linarith) h
+
+/-- the shifted box is well formed -/
+theorem wf_shift (n : Nat) (Q : PB) (hQ : WF n Q) (a b : Rat) (hab : a ≤ b) :
+    WF n ⟨Q.left.map (a + ·), Q.right.map (b + ·)⟩ where
+  llen := by simp [hQ.llen]
+  rlen := by simp [hQ.rlen]
+  lsorted := pairwise_map_add a _ hQ.lsorted
+  rsorted := pairwise_map_add b _ hQ.rsorted
+  le := forall₂_map_add a b hab _ _ hQ.le
+
+/-- **interval + anything (constant on the left)** under Frechet / perfect / opposite: every step of
+`Q` is shifted by the interval -/
+theorem add_const_left (n : Nat) (dep : Dep) (hd : dep = .f ∨ dep = .p ∨ dep = .o) (a b : Rat) (hab : a ≤ b)
+    (Q : PB) (hQ : WF n Q) :
+    add n dep (ofIvl n a b) Q = .ok ⟨Q.left.map (a + ·), Q.right.map (b + ·)⟩ := by
+  have hw := wf_shift n Q hQ a b hab
+  have hl : List.replicate n a = List.replicate Q.left.length a := by rw [hQ.llen]
+  have hr : List.replicate n b = List.replicate Q.right.length b := by rw [hQ.rlen]
+  rcases hd with h | h | h <;> subst h
+  · -- Frechet
+    simp only [add, frechetOp, ofIvl]
+    rw [hl, hr, frechetLeftRaw_constL (· + ·) a Q.left hQ.lsorted (fun x y h => by linarith),
+      frechetRightRaw_constL (· + ·) b Q.right hQ.rsorted (fun x y h => by linarith),
+      sortR_of_sorted _ hw.lsorted, sortR_of_sorted _ hw.rsorted]
+    exact mk_wf n false _ _ hw
+  · -- perfect
+    simp only [add, perfectOp, ofIvl]
+    rw [cornerPair_add _ _ _ _ (forall₂_replicate n a b hab) hQ.le]
+    simp only
+    rw [hl, hr, zipWith_replicate_left, zipWith_replicate_left, sortR_of_sorted _ hw.lsorted, sortR_of_sorted _ hw.rsorted]
+    exact mk_wf n false _ _ hw
+  · -- opposite
+    simp only [add, oppositeOp, ofIvl]
+    rw [cornerPair_add _ _ _ _ (forall₂_replicate n a b hab) (List.forall₂_reverse_iff.mpr hQ.le)]
+    simp only
+    have hl' : List.replicate n a = List.replicate Q.left.reverse.length a := by simp [hQ.llen]
+    have hr' : List.replicate n b = List.replicate Q.right.reverse.length b := by simp [hQ.rlen]
+    rw [hl', hr', zipWith_replicate_left, zipWith_replicate_left,
+      sortR_eq_of_perm _ (Q.left.map (a + ·)) ((List.reverse_perm _).map _) hw.lsorted,
+      sortR_eq_of_perm _ (Q.right.map (b + ·)) ((List.reverse_perm _).map _) hw.rsorted]
+    exact mk_wf n false _ _ hw
+
+theorem map_add_comm (a : Rat) (l : List Rat) : l.map (· + a) = l.map (a + ·) :=
+  List.map_congr_left (fun x _ => add_comm x a)
+
+/-- **anything + interval (constant on the right)** under Frechet / perfect / opposite -/
+theorem add_const_right (n : Nat) (dep : Dep) (hd : dep = .f ∨ dep = .p ∨ dep = .o) (a b : Rat) (hab : a ≤ b)
+    (Q : PB) (hQ : WF n Q) :
+    add n dep Q (ofIvl n a b) = .ok ⟨Q.left.map (a + ·), Q.right.map (b + ·)⟩ := by
+  have hw := wf_shift n Q hQ a b hab
+  have hl : List.replicate n a = List.replicate Q.left.length a := by rw [hQ.llen]
+  have hr : List.replicate n b = List.replicate Q.right.length b := by rw [hQ.rlen]
+  rcases hd with h | h | h <;> subst h
+  · simp only [add, frechetOp, ofIvl]
+    rw [hl, hr, frechetLeftRaw_constR (· + ·) a Q.left hQ.lsorted (fun x y h => by linarith),
+      frechetRightRaw_constR (· + ·) b Q.right hQ.rsorted (fun x y h => by linarith),
+      map_add_comm, map_add_comm, sortR_of_sorted _ hw.lsorted, sortR_of_sorted _ hw.rsorted]
+    exact mk_wf n false _ _ hw
+  · simp only [add, perfectOp, ofIvl]
+    rw [cornerPair_add _ _ _ _ hQ.le (forall₂_replicate n a b hab)]
+    simp only
+    rw [hl, hr, zipWith_replicate_right, zipWith_replicate_right, map_add_comm, map_add_comm,
+      sortR_of_sorted _ hw.lsorted, sortR_of_sorted _ hw.rsorted]
+    exact mk_wf n false _ _ hw
+  · simp only [add, oppositeOp, ofIvl, List.reverse_replicate]
+    rw [cornerPair_add _ _ _ _ hQ.le (forall₂_replicate n a b hab)]
+    simp only
+    rw [hl, hr, zipWith_replicate_right, zipWith_replicate_right, map_add_comm, map_add_comm,
+      sortR_of_sorted _ hw.lsorted, sortR_of_sorted _ hw.rsorted]
+    exact mk_wf n false _ _ hw
+
+/-- negation of a well-formed box: bounds exchanged, negated and reversed -/
+theorem neg_wf (n : Nat) (Q : PB) (hQ : WF n Q) :
+    neg n Q = .ok ⟨(Q.right.map (- ·)).reverse, (Q.left.map (- ·)).reverse⟩ ∧
+    WF n ⟨(Q.right.map (- ·)).reverse, (Q.left.map (- ·)).reverse⟩ := by
+  have hs : ∀ l : List Rat, l.Pairwise (· ≤ ·) → ((l.map (- ·)).reverse).Pairwise (· ≤ ·) := by
+    intro l hl
+    rw [List.pairwise_reverse]
+    exact List.Pairwise.map _ (fun x y hxy => by show -y ≤ -x; linarith) hl
+  have hle : List.Forall₂ (· ≤ ·) ((Q.right.map (- ·)).reverse) ((Q.left.map (- ·)).reverse) := by
+    rw [List.forall₂_reverse_iff, List.forall₂_map_left_iff, List.forall₂_map_right_iff]
+    exact (List.Forall₂.flip hQ.le).imp (fun x y h => by show -x ≤ -y; linarith)
+  have hw : WF n ⟨(Q.right.map (- ·)).reverse, (Q.left.map (- ·)).reverse⟩ :=
+    ⟨by simp [hQ.rlen], by simp [hQ.llen], hs _ hQ.rsorted, hs _ hQ.lsorted, hle⟩
+  refine ⟨?_, hw⟩
+  unfold neg
+  rw [← List.map_reverse, ← List.map_reverse] at hw ⊢
+  rw [sortR_of_sorted _ hw.lsorted, sortR_of_sorted _ hw.rsorted]
+  exact mk_wf n true _ _ hw
+
 
 end Pun.Hier
